@@ -471,15 +471,21 @@ def run_guard(c):
             'accepted_noop': verdict == ref.REFUSE and st < 400 and not d}
 
 
+_ALONE = {}
+
+
 def run_seq(c):
     """denied request then allowed request == allowed request alone."""
     F = fixtures()
     dv = F['routes'][tuple(c['dkey'])][c['dvi']]
     av = F['routes'][tuple(c['akey'])][c['avi']]
     ids = F['fx']['_ids'] + 1000
-    A.restore(F['snap'], ids, F['fx']['_clock'])
-    ra = _send(av, True)
-    alone = (ra['status'], A.state_hash(A.dump_db(), ra['msgs']))
+    ak = (tuple(c['akey']), c['avi'])
+    if ak not in _ALONE:
+        A.restore(F['snap'], ids, F['fx']['_clock'])
+        ra = _send(av, True)
+        _ALONE[ak] = (ra['status'], A.state_hash(A.dump_db(), ra['msgs']))
+    alone = _ALONE[ak]
     A.restore(F['snap'], ids, F['fx']['_clock'])
     A.set_policy((dv['rules'][0],))
     rd = _send(dv, True)
@@ -499,7 +505,21 @@ def run_seq(c):
                      '%s' % (dv['http'], dv['url'], av['http'], av['url'],
                              both, alone)))
     return {'status': rb['status'], 'hash': both[1], 'viol': viol,
-            'note': None, 'denied': True, 'changed': False, 'nreq': 3}
+            'note': None, 'denied': True, 'changed': False, 'nreq': 2}
+
+
+def _target_class(c):
+    """Groups guard disagreements per call site: documented target state,
+    undocumented target state, no state / delete."""
+    if c['g'] == 'exec_delete':
+        return 'force=%s' % c['force']
+    st = c.get('state')
+    if st is None:
+        return 'no-state'
+    doc = {'exec_put': ('PAUSED', 'RUNNING') + ref.FINAL,
+           'task_put': ('RUNNING', 'SKIPPED'),
+           'action_put': ('PAUSED', 'RUNNING') + ref.FINAL}[c['g']]
+    return 'documented-target' if st in doc else 'undocumented-target'
 
 
 RUNNERS = {'auth': run_auth, 'probe': run_probe, 'guard': run_guard,
@@ -596,7 +616,10 @@ def main(tier):
     cnt = rep.counters
     for cid in sorted(results):
         c, r = results[cid]
-        rep.case(cid)
+        # trivial = an allowed request that fails for a reason unrelated to
+        # the property (e.g. 404 on an absent resource)
+        rep.case(cid, nontrivial=bool(r['denied'] or r['changed'] or
+                                      200 <= r['status'] < 300))
         rep.state(r['hash'])
         rep.transition(r.get('nreq', 1))
         k = c['kind']
@@ -633,7 +656,7 @@ def main(tier):
         elif c['kind'] == 'probe':
             gk = (typ, kstr(c['key']))
         elif c['kind'] == 'guard':
-            gk = (typ, c['g'], c.get('state'), c.get('force'))
+            gk = (typ, c['g'], _target_class(c))
         else:
             gk = (typ, kstr(c['dkey']))
         if gk in seen:
@@ -710,7 +733,11 @@ def main(tier):
              'controller tree) x request variant (present/absent, '
              'private/public, plain/all_projects/project_id) x policy '
              'configuration (defaults x member/admin, all rules denied, '
-             'each single rule denied); guards: current state x requested '
+             + ('each single rule of the registry denied x member/admin; '
+                'all (denied request, allowed request) pairs'
+                if tier == 'thorough' else
+                'each single rule of the same resource family denied') +
+             '); guards: current state x requested '
              'state x fields; a case is one REST request from the fixture '
              'state, distinct by (operation, variant, caller, policy) or '
              '(guard, current state, requested state, fields); states = '
